@@ -482,6 +482,28 @@ def run(ctx):
         if impl[base + k] != exp:
             ctx.fail("u16-key-" + path.split(":")[0], "%s path, strategy %s: the token id 0x%04x as a key of a u16-keyed map gives %s, expected %s" % (path, st, i, impl[base + k][:100], exp), [ucases[k]], [impl[base + k]], exp)
 
+    # zero-copy targets: a field / map key / sequence element that insists on BORROWING its string (&'de str) must get the
+    # resolver's name for a resolved token id on the tape path exactly as on the on-demand path (and the document's own bytes
+    # for a string token); the stream path cannot lend and is not asked
+    bcases, bmeta = [], []
+    NAME = b"general"
+    for tok in (0x2d82, 0x0b, 0x10, 0xffff, 0x8000, 0x0100):
+        res = "map:%04x=%s" % (tok, NAME.hex())
+        idb = struct.pack("<H", tok)
+        docs = [("struct(%s:bref)" % hx("k"), D.bstr(b"k", False) + D.EQ + idb, "(struct (%s (str %s)))" % (hx("k"), NAME.hex())),
+                ("kmap(bref,i32)", idb + D.EQ + D.tok(0x0c) + struct.pack("<i", 5), "(amap ((str %s) (i 5)))" % NAME.hex()),
+                ("struct(%s:seq(bref))" % hx("k"), D.bstr(b"k", False) + D.EQ + D.OPEN + idb + idb + D.CLOSE, "(struct (%s (seq (str %s) (str %s))))" % (hx("k"), NAME.hex(), NAME.hex())),
+                ("struct(%s:bref)" % hx("k"), D.bstr(b"k", False) + D.EQ + D.bstr(b"plain", True), "(struct (%s (str %s)))" % (hx("k"), b"plain".hex()))]
+        for sh, body, exp in docs:
+            for path in ("tape", "slice"):
+                for st in ("error", "ignore", "stringify"):
+                    bcases.append("\t".join(["de.bin", path, st, res, "raw", sh, hx(body)])); bmeta.append((path, sh, exp))
+    impl, _ = ctx.correspond("borrowed_targets", bcases, nontrivial=nt, model=False)
+    base = len(impl) - len(bcases)
+    for k, (path, sh, exp) in enumerate(bmeta):
+        if impl[base + k] != exp:
+            ctx.fail("borrowed-" + path, "%s path, borrowing target %s: %s, expected %s" % (path, sh, impl[base + k][:120], exp), [bcases[k]], [impl[base + k]], exp)
+
     # >>> a_c04 (wave 4): every Deserializer method x token kind x position x path, exact skipping at depth, size hints,
     # the remaining public entry points (props/C04_shapes.py; audit/C04.md)
     from props import C04_shapes
